@@ -29,6 +29,13 @@ def field_names(c):
     return ["a", "b", "c"][:n], True
 
 
+RAWKW = {"type": "r#type"}     # placeholder / alias spelling -> the spelling in declarations and expressions
+
+
+def spelled(nm):
+    return RAWKW.get(nm, nm)
+
+
 def field_type(c, i, key):
     p = c["fields"][i]["p"]
     if p == "none":
@@ -42,6 +49,8 @@ def build(c, key):
     """returns (item text, type texts per field)"""
     D = c["D"]
     names, named = field_names(c)
+    if named and vlib.seeded_pick(key, 43, 3) == 0:
+        names = ["type"] + names[1:]          # a keyword field: `r#type` in the declaration and in arguments, `{type}` in literals
     tys = [field_type(c, i, key) for i in range(len(names))]
     params = sorted({f["p"] for f in c["fields"] if f["p"] != "none"})
     g = "<" + ", ".join(f"{p}: 'static" for p in params) + ">" if params else ""   # (`&'static T` fields)
@@ -57,24 +66,24 @@ def build(c, key):
             lit += "{" + nm + spec + "}"
         elif u["how"] == "pos":
             lit += "{" + spec + "}"
-            pos_args.append(nm)
+            pos_args.append(spelled(nm))
         elif u["how"] == "expr":
             lit += "{}"
-            pos_args.append(f"core::mem::size_of_val({nm})")
+            pos_args.append(f"core::mem::size_of_val({spelled(nm)})")
         elif u["how"] == "alias":
             lit += "{v%d%s}" % (k, spec)
-            named_args.append(f"v{k} = {nm}")
+            named_args.append(f"v{k} = {spelled(nm)}")
         elif u["how"] == "shadow":
             lit += "{" + nm + "}"
-            named_args.append(f"{nm} = core::mem::size_of_val({nm})")
+            named_args.append(f"{nm} = core::mem::size_of_val({spelled(nm)})")
         elif u["how"] == "shadowto":
             other = names[(3 - u["f"]) - 1]
             lit += "{" + nm + spec + "}"
-            named_args.append(f"{nm} = {other}")
+            named_args.append(f"{nm} = {spelled(other)}")
         elif u["how"] == "posalias":
             idx = n_pos + len(named_args)
             lit += "{%d%s}" % (idx, spec)
-            named_args.append(f"v{k} = {nm}")
+            named_args.append(f"v{k} = {spelled(nm)}")
         lit += " "
     if c.get("star"):
         # `{s:.*}`: explicit value, the precision is taken from the next positional argument (a constant)
@@ -92,7 +101,7 @@ def build(c, key):
         else:
             fattrs.append("")
     if named:
-        body = "{ " + ", ".join(f"{fattrs[i]}pub {names[i]}: {tys[i]}" for i in range(len(names))) + " }"
+        body = "{ " + ", ".join(f"{fattrs[i]}pub {spelled(names[i])}: {tys[i]}" for i in range(len(names))) + " }"
     else:
         body = "(" + ", ".join(f"{fattrs[i]}{tys[i]}" for i in range(len(names))) + ")"
     lvl = c["level"]
